@@ -45,6 +45,10 @@ What is proved (all fanouts, all numbers of targets, all fault vectors, all sche
 * `immortal_never_returns`: WITHOUT the hypothesis `Td` the bound fails — once a command that neither exits nor
   reacts to SIGTERM has been started, dsh() never returns, command timeout or not (the teardown waits for it:
   witness below; on the real `pdsh -R exec -u 1` this is finding F07-TEARDOWN-WAIT).
+The connect outcome of the model is success / failure (`Conn.ok` / `refuse` / interrupted), not a descriptor:
+the correspondence maps `rcmd_connect() ≥ 0` to success, and the descriptor VALUE the scripted transport returns is
+generated over {0, 1, 2, ≥ 3} (harness key `lowfds`).
+
 Not proved here: that dsh.c refines the LTS (trace correspondence of `checks/c07.py`); anything below
 the granularity "operations + blocking calls" (a SIGALRM that finds the worker between two xpoll calls
 is lost — finding F07-LOSTALRM — the model's workers are always inside xpoll while READING);
